@@ -6,7 +6,7 @@ From BV Require Import Base.Prelude Model.Block Model.ForkDB Model.Forkable Mode
   Spec.Consumer Spec.Universe Check.Fk_Check Check.Burst_Check
   Spec.C09_Spec Spec.C05_Spec Spec.C05_Through_Spec
   Proofs.C09_Store Proofs.C09_Segment Proofs.C05_Fast Proofs.C05_Forked
-  Proofs.C05_Through Proofs.C05_ThroughConsumer Proofs.C05_Final Properties.C09 Properties.C05.
+  Proofs.C05_Through Proofs.C05_ThroughConsumer Proofs.C05_Final Proofs.C05_Total Properties.C09 Properties.C05.
 Local Open Scope N_scope.
 
 Theorem c05_through_on_chain : C05_through_on_chain.
@@ -36,6 +36,14 @@ Print Assumptions c05_hub_through.
 Theorem c05_final_only : C05_final_only.
 Proof. exact c05_final_only_proof. Qed.
 Print Assumptions c05_final_only.
+
+Theorem c05_through_no_source : C05_through_no_source.
+Proof. exact c05_through_no_source_proof. Qed.
+Print Assumptions c05_through_no_source.
+
+Theorem c05_total : C05_total.
+Proof. exact c05_total_proof. Qed.
+Print Assumptions c05_total.
 
 (* ---- non-vacuity.  Two states of the hub of Properties/C09.v (store 11<-12<-13<-14(<-15) with the
    fork 23 on 12):
@@ -177,6 +185,13 @@ Proof.
   split; [eexists; split; [vm_compute; reflexivity|vm_compute; reflexivity]|].
   vm_compute. reflexivity.
 Qed.
+
+(* no source: start below the retained chain; no LIB (the initial state) *)
+Example c05t_nonvacuous_below_chain :
+  (match ex_sg1 with s0 :: _ => 0 < snum s0 | [] => False end) /\ blocks_through_cursor ex_s1 0 ex_cf = BErr /\
+  has_lib (db (fs_init LNone)) = false /\ blocks_through_cursor (fs_init LNone) 2 ex_cf = BErr /\
+  last_sent ex_s1 <> None.
+Proof. vm_compute. repeat split; try reflexivity; discriminate. Qed.
 
 (* 3. hub.SourceThroughCursor: cursor block 13 (number 3) below start 4 = the snapshot from 4;
    start 2 = blocksThroughCursor *)
